@@ -1,7 +1,7 @@
 """registers every sidecar contract (callee contracts of one property are needed by the callers of another)"""
 import importlib
 
-MODULES = ["C06", "C01", "C05", "C02", "C07", "C08", "C17", "C09", "C18", "C03", "C16", "C13", "C14", "C15", "P_hist", "P_acc", "P_ctx", "P_fr", "P_sel", "P_split", "P_var", "P_flow", "P_pairs", "P_hist2", "P_sib", "P_iet", "P_seq", "C19", "P_out", "P_ctx2", "P_acc2", "P_names"]
+MODULES = ["C06", "C01", "C05", "C02", "C07", "C08", "C17", "C09", "C18", "C03", "C16", "C13", "C14", "C15", "P_hist", "P_acc", "P_ctx", "P_fr", "P_sel", "P_split", "P_var", "P_flow", "P_pairs", "P_hist2", "P_sib", "P_iet", "P_seq", "P_core2", "C19", "P_out", "P_ctx2", "P_acc2", "P_struct2", "P_names", "P_var2", "P_ctor", "P_acc3", "P_out2"]
 
 
 def register(ix):
